@@ -4,7 +4,7 @@ cd /verif/coq
 {
   echo "-Q . FitV"
   echo "-arg -w -arg -notation-overridden,-deprecated-hint-without-locality,-deprecated-instance-without-locality"
-  find Gen Model Spec Proofs Props Extract -name '*.v' | sort
+  find Gen Model Spec Proofs Props -name '*.v' | sort
 } > _CoqProject.new
 if ! cmp -s _CoqProject.new _CoqProject || [ ! -f Makefile ]; then
   mv _CoqProject.new _CoqProject
